@@ -277,7 +277,7 @@ def run_job(binpath, base_args, seed, total_cases, repo, variant,
                           repo, timeout_s, outdir, leak_check)
                 for w in range(nworkers)]
         results = [f.result() for f in futs]
-    agg = dict(tsan_by_design={}, cases_run=0, nontrivial=0, distinct=0, counters={}, samples=[],
+    agg = dict(viol_counts={}, tsan_by_design={}, cases_run=0, nontrivial=0, distinct=0, counters={}, samples=[],
                viols=[], diags=[], ubsan={}, inconclusive=[], crashes=0,
                skipped=0, extra=[], wall_s=time.time() - t0)
     for r in results:
@@ -293,6 +293,8 @@ def run_job(binpath, base_args, seed, total_cases, repo, variant,
             agg['tsan_by_design'][k] = agg['tsan_by_design'].get(k, 0) + v
         for s in r.stats:
             agg['nontrivial'] += s.get('nontrivial', 0)
+            for k, v in s.get('viol_counts', {}).items():
+                agg['viol_counts'][k] = agg['viol_counts'].get(k, 0) + v
             agg['skipped'] += s.get('skipped', 0)
             for k, v in s.get('counters', {}).items():
                 agg['counters'][k] = agg['counters'].get(k, 0) + v
